@@ -95,6 +95,21 @@ def h_raw_file(m, ctx, n, mode, domain='any', inc='any', pre_out_len=None, pre_t
     ctx.cover('raw_' + mode + ('_ok' if r.idx == 0 else '_err'))
 
 
+def h_shell_new(m, ctx, n, layout=None):
+    """Shell::new on an arbitrary shell option value (blanks, tabs, letters that may or may not spell an installed shell)"""
+    it = Interp(m, ctx)
+    env = Env(it, cwd=b'/w')
+    it.env = env
+    env.add_file(b'/bin/sh', b'')
+    env.add_file(b'/usr/bin/bash', b'')
+    cmd = list(ctx.fresh_bytes('sc', n, [32, 9, 115, 104, 45, 99]))
+    if layout is not None:
+        cmd[layout[0]:layout[0]] = list(layout[1])
+    set_data(ctx, {'op': 'shell_new', 'cmd': syms_of(cmd)})
+    r = it.call_mir(m.find_method('Shell', 'new'), [StrV(tuple(cmd))])
+    ctx.cover('shell_new_' + ('ok' if r.idx == 0 else 'err'))
+
+
 def h_threads(m, ctx, threads, fail):
     w = sched.World(m, ctx, 2, ['F0.txtpp', 'F1.txtpp'], acyclic_only=True, allow_self=False, fail_budget=1 if fail else 0)
     it = Interp(m, ctx)
@@ -148,6 +163,10 @@ def jobs(tier):
             js.append({'name': 'raw tail after %r %s' % (head, mode), 'harness': (H, 'h_raw_file'),
                        'params': {'n': 2, 'mode': mode, 'layout': (0, head), 'pre_temp_len': 2, 'pre_out_len': 3 if mode == 'Verify' else None},
                        'split': 4})
+    for n in ((0, 1, 2, 3) if quick else (0, 1, 2, 3, 4, 5)):
+        js.append({'name': 'Shell::new on %d arbitrary bytes' % n, 'harness': (H, 'h_shell_new'), 'params': {'n': n}})
+    for lay in ((0, b'sh'), (1, b'sh'), (2, b'bash')):
+        js.append({'name': 'Shell::new %r + 2 arbitrary bytes' % (lay,), 'harness': (H, 'h_shell_new'), 'params': {'n': 2, 'layout': lay}})
     for th in (0, 1, 2, 16):
         for fail in (False, True):
             js.append({'name': 'threads=%d fail=%s' % (th, fail), 'harness': (H, 'h_threads'), 'params': {'threads': th, 'fail': fail}})
@@ -160,6 +179,10 @@ def jobs(tier):
     for inp, rec in (((['.', '.']), False), (['.', 'sub'], True), (['sub', 'sub'], False), (['F0.txtpp', 'sub/../F0.txtpp'], False)):
         js.append({'name': 'no hang inputs=%s' % ','.join(inp), 'harness': ('props.sched', 'h_sched'),
                    'params': {'n': 1, 'inputs': inp, 'acyclic_only': True, 'recursive': rec, 'subdir': True, 'check_panics': True}, 'split': 8})
+    for n, th in ((3, 1), (4, 1), (4, 2)) if quick else ((3, 1), (4, 1), (4, 2), (5, 1), (5, 2), (6, 2)):
+        js.append({'name': 'no hang when a task fails n=%d threads=%d' % (n, th), 'harness': ('props.sched', 'h_sched'),
+                   'params': {'n': n, 'inputs': ['.'], 'acyclic_only': True, 'allow_self': False, 'fail_budget': 1, 'max_deps': 0, 'threads': th,
+                              'check_panics': True}, 'split': 16})
     for n, inp in ((2, ['F0.txtpp', 'F1.txtpp']), (3, ['.']), (3, ['F0.txtpp', 'F2.txtpp'])):
         js.append({'name': 'workers outliving a failed run n=%d' % n, 'harness': (H, 'h_workers'), 'params': {'n': n, 'inputs': inp, 'fail_budget': 1},
                    'split': 16 if n >= 3 else 1})
@@ -170,13 +193,13 @@ BOUNDS = {'quick': 'detect_from: ASCII lines 0-7 bytes + 6 symbolic bytes with Ã
                    'one non-ASCII char as prefix, lines of 0-4 symbolic bytes with a non-ASCII char at every position; replace_line_ending, '
                    'get_line_ending_from_buf (any byte values) 0-4 bytes; path names 4-8 bytes; preprocess on 0-3 arbitrary bytes (0-255) and on '
                    '5 directive heads + 2 arbitrary bytes, included file / pre-existing output / temp of arbitrary bytes, all 4 modes; '
-                   'Txtpp::run with 0/1/2/16 threads; failing task with others in flight on <=3 files',
+                   'Shell::new on 0-3 bytes over {space, tab, s, h, -, c} and around sh / bash; Txtpp::run with 0/1/2/16 threads; failing task with others in flight on <=3 files',
           'thorough': 'lines up to 9 bytes, raw files up to 5 bytes'}
 ASSUMPTIONS = ['symbolic bytes >= 0x80 inside a file are treated as invalid UTF-8 by the FS model (valid multi-byte characters are the concrete layouts)',
                'resource exhaustion (huge inputs) and real time are outside the claim; the coordinator hang check is C03',
                'a panic inside std that the contract models do not know about is not visible (std preconditions modelled: index bounds, char '
                'boundaries, unwrap/expect, threadpool num_threads > 0, send on a dropped channel)']
-COVERS_REQUIRED = ['leaf', 'leaf_addline', 'raw_Build_ok', 'raw_Build_err', 'raw_Verify_err', 'raw_Clean_ok', 'threads_0_err', 'threads_16_ok']
+COVERS_REQUIRED = ['shell_new_ok', 'shell_new_err', 'leaf', 'leaf_addline', 'raw_Build_ok', 'raw_Build_err', 'raw_Verify_err', 'raw_Clean_ok', 'threads_0_err', 'threads_16_ok']
 
 
 def finding_key(v, detail):
@@ -208,6 +231,14 @@ def replay(native, v):
     if op == 'names':
         out = native.ask('is_txtpp_file ' + hexs(conc('name'))) + ' ' + native.ask('remove_txtpp ' + hexs(conc('name')))
         return 'PANIC' in out, {'native': out}
+    if op == 'shell_new':
+        import os, tempfile, shutil, subprocess
+        from lib import build
+        root = tempfile.mkdtemp(prefix='replay-shn-', dir=build.scratch_dir())
+        open(os.path.join(root, 'a.txtpp'), 'w').write('x\n')
+        r = subprocess.run([ppreplay.cli_path(), '-q', '-s', conc('cmd').decode('latin1'), 'a.txtpp'], cwd=root, capture_output=True)
+        shutil.rmtree(root, ignore_errors=True)
+        return r.returncode not in (0, 1), {'shell option': repr(conc('cmd')), 'rc': r.returncode, 'stderr': r.stderr.decode('latin1')[:300]}
     if op == 'threads':
         import os, tempfile, shutil
         from lib import build
